@@ -17,6 +17,12 @@ Defects(e) ==
             [] e.mech = "feature" ->
                  (IF e.count = 1 /\ e.same THEN {} ELSE {"more than one feature for one type and role"})
                  \cup (IF e.distinct THEN {} ELSE {"feature number handed out twice"})
+            [] e.mech = "entity" ->
+                 \* the device's entity list is a read-modify-write as well: no addition or removal is lost, each is
+                 \* announced exactly once, and a discovery read shows exactly the resulting tree
+                 (IF e.count = Cardinality(procs) THEN {} ELSE {"entity addition or removal lost"})
+                 \cup (IF e.same THEN {} ELSE {"not exactly one notification per added / removed entity"})
+                 \cup (IF e.distinct THEN {} ELSE {"discovery reply differs from the tree, or an announced address does not resolve"})
             [] e.mech = "usecase" ->
                  (IF e.count = Cardinality(procs) THEN {} ELSE {"use case update lost"})
             [] OTHER -> {"unknown mechanism"})
